@@ -752,11 +752,14 @@ def undecodable_frame(kind, client, uid):
 
 
 def garbage(r, kind, pool, own_units, client=False):
-    k = r.randrange(11)
+    k = r.randrange(12)
+    if k == 11 and kind == "rtu" and client:     # a CONFORMANT FIFO header (byte count <= 64): extent <= 70, judged normally
+        return "fifo-conformant", [bytes([r.choice(own_units), 0x18, 0, r.choice([0, 2, 4, 30, 63, 64])])]
     if k == 9:
         return "undecodable", [undecodable_frame(kind, client, r.choice(own_units))]
     if k == 10 and kind == "rtu" and client:
-        return "fifo", [bytes([r.choice(own_units), 0x18, r.choice([1, 0x80, 0xff]), r.randrange(256)])]
+        return "fifo", [bytes([r.choice(own_units), 0x18] + r.choice([[0, 65], [0, 0xff], [1, r.randrange(256)], [0x80, r.randrange(256)],
+                                                                    [0xff, r.randrange(256)]]))]
     if k == 0:
         return "random", [bytes(r.randrange(256) for _ in range(r.choice([1, 2, 3, 5, 9, 20, 60])))]
     if k == 1:
@@ -841,10 +844,33 @@ def c11_case(r, kind, client, pool, bigs, label, g, reset, per_read, nbig=4, nsm
                 nontrivial=sum(len(f[4]) for f in fs[:-1]) > WINDOW)
 
 
+def c11_case_from_desc(desc, label="corpus"):
+    """rebuild a C11 case from a stored description (corpus / replay): same reads, fresh observation"""
+    run = drive(desc["kind"], desc["client"], desc["units"], desc["single"], desc["reset"], [bytes.fromhex(c) for c in desc["chunks"]])
+    fs = desc["frames"]
+    reads = [fs[i:i + desc["per_read"]] for i in range(0, len(fs), desc["per_read"])]
+    rt = lst(lst("(%s, %s)" % (del_t((bytes.fromhex(f[2]), f[1])), z(f[3])) for f in grp) for grp in reads)
+    term = "(%s,\n %s, %s, %s)" % (scase_t(run), nat(desc["ngarb"]), z(WINDOW), rt)
+    maxlen = max([o[3][1] or 0 for o in run["obs"]] + [0])
+    d = run_desc(run, garbage=desc.get("garbage", label), ngarb=desc["ngarb"], per_read=desc["per_read"], max_hdr_len=maxlen, frames=fs)
+    return Case(term, d, kind="%s:%s:%s" % (desc["kind"], label, desc.get("garbage", "")), nontrivial=True)
+
+
+def corpus_cases(name):
+    import json
+    import os
+    path = os.path.join(common.CORPUS, name)
+    try:
+        with open(path) as f:
+            return json.load(f)
+    except OSError:
+        return []
+
+
 def suite_c11(tier):
     r = common.rng("b_c11")
     quick = tier == "quick"
-    cases = []
+    cases = [c11_case_from_desc(d) for d in corpus_cases("C11_rtubin.json")]     # stored cases run first
     for kind in ("rtu", "bin"):
         for client in (False, True):
             pool = [m for m in messages(tier, "b_msgs") if m[1] == client]
@@ -1104,10 +1130,19 @@ def c06_regions(desc):
     return regs
 
 
+FIFO_MAX_COUNT = 64      # largest conformant Read FIFO Queue byte count: 2 + 2 * 31
+
+
+def fifo_nonconformant(g):
+    """bytes that parse (response direction) as a Read FIFO Queue header '.. 18 hi lo' whose byte count exceeds what a
+    conformant response can carry: the size oracle then asks for hi*256 + lo + 6 > 70 bytes"""
+    return len(g) >= 4 and g[1] == 0x18 and ((g[2] << 8) | g[3]) > FIFO_MAX_COUNT
+
+
 def c11_regions(desc):
     regs = set()
     if desc["kind"] == "rtu":
-        if desc["client"] and desc.get("max_hdr_len", 0) > WINDOW:
+        if desc["client"] and any(fifo_nonconformant(bytes.fromhex(c)) for c in desc["chunks"][:desc["ngarb"]]):
             regs.add("fifo-extent")
         if desc.get("garbage") == "undecodable" and not desc["reset"]:
             regs.add("undecodable-deaf")
@@ -1210,11 +1245,7 @@ def replay_case_for(pid, suite, desc):
         elif suite == "b_c07":
             term, chk = scase_t(run), "chk_c07"
         elif suite == "b_c11":
-            # frames: [class, uid, pdu hex, packet length] grouped per_read
-            fs = desc["frames"]
-            reads = [fs[i:i + desc["per_read"]] for i in range(0, len(fs), desc["per_read"])]
-            rt = lst(lst("(%s, %s)" % (del_t((bytes.fromhex(f[2]), f[1])), z(f[3])) for f in grp) for grp in reads)
-            term, chk = "(%s,\n %s, %s, %s)" % (scase_t(run), nat(desc["ngarb"]), z(WINDOW), rt), "chk_c11"
+            term, chk = c11_case_from_desc(desc, "replay").term, "chk_c11"
         else:
             pkt = desc["packet"]
             pk = ("ok", bytes.fromhex(pkt)) if all(c in "0123456789abcdef" for c in pkt) else ("exc", pkt)
